@@ -18,14 +18,14 @@ EXTENDS PromQLRef, Json
 CONSTANT TraceFile
 Trace == ndJsonDeserialize(TraceFile)
 
-VARIABLES l, cur, eng, ref, cmpok, viol, stat
-vars == <<l, cur, eng, ref, cmpok, viol, stat>>
+VARIABLES l, cur, eng, ref, cmpok, viol, stat, calib
+vars == <<l, cur, eng, ref, cmpok, viol, stat, calib>>
 
 None == [kind |-> "none", err |-> "", series |-> <<>>]
 Stat0 == [sc |-> 0, structural |-> 0, calibrated |-> 0, calibmiss |-> 0, specerr |-> 0, skipped |-> 0, dead |-> 0]
 
 Init == /\ l = 1 /\ cur = [id |-> ""] /\ eng = None /\ ref = None /\ cmpok = [equal |-> TRUE, what |-> "", shape |-> ""]
-        /\ viol = {} /\ stat = Stat0
+        /\ viol = {} /\ stat = Stat0 /\ calib = {}
 
 \* ------------------------------------------------------------------ result projection
 NAt(r, tms) == LET cnt(x) == Cardinality({y \in 1..Len(r.series[x].pts) : r.series[x].pts[y].t = tms})
@@ -99,22 +99,22 @@ Header == /\ IsEv("sc")
           /\ cur' = Trace[l] /\ eng' = None /\ ref' = None
           /\ cmpok' = [equal |-> TRUE, what |-> "", shape |-> ""]
           /\ stat' = [stat EXCEPT !.sc = @ + 1]
-          /\ UNCHANGED viol
+          /\ UNCHANGED <<viol, calib>>
 
 ResEv == /\ IsEv("res")
          /\ IF Trace[l].who = "eng" THEN eng' = Trace[l].r /\ UNCHANGED ref
                                     ELSE ref' = Trace[l].r /\ UNCHANGED eng
-         /\ UNCHANGED <<cur, cmpok, viol, stat>>
+         /\ UNCHANGED <<cur, cmpok, viol, stat, calib>>
 
-CmpEv == /\ IsEv("cmp") /\ cmpok' = Trace[l].d /\ UNCHANGED <<cur, eng, ref, viol, stat>>
+CmpEv == /\ IsEv("cmp") /\ cmpok' = Trace[l].d /\ UNCHANGED <<cur, eng, ref, viol, stat, calib>>
 
 \* the engine's process died while evaluating the scenario (C13's business; recorded here)
 DeadEv == /\ IsEv("dead")
           /\ viol' = viol \cup {<<cur.id, "ProcessDead", Trace[l].why>>}
           /\ stat' = [stat EXCEPT !.dead = @ + 1]
-          /\ UNCHANGED <<cur, eng, ref, cmpok>>
+          /\ UNCHANGED <<cur, eng, ref, cmpok, calib>>
 
-SkipEv == /\ IsEv("skip") /\ stat' = [stat EXCEPT !.skipped = @ + 1] /\ UNCHANGED <<cur, eng, ref, cmpok, viol>>
+SkipEv == /\ IsEv("skip") /\ stat' = [stat EXCEPT !.skipped = @ + 1] /\ UNCHANGED <<cur, eng, ref, cmpok, viol, calib>>
 
 EndEv ==
   /\ IsEv("end")
@@ -127,8 +127,9 @@ EndEv ==
          v1 == IF cmpok.equal THEN {} ELSE {<<sc.id, "EngEqualsRef", cmpok.what \o ":" \o cmpok.shape>>}
          v2 == IF refok /\ ~engok THEN {<<sc.id, "EngEqualsSpec", "">>} ELSE {}
          v3 == IF eng.err = "" THEN {<<sc.id, c, "">> : c \in WFClauses(sc, eng)} ELSE {}
-     IN IF ~done THEN UNCHANGED <<viol, stat>>
+     IN IF ~done THEN UNCHANGED <<viol, stat, calib>>
         ELSE /\ viol' = viol \cup v1 \cup v2 \cup v3
+             /\ calib' = IF structural /\ ~refok /\ Cardinality(calib) < 20 THEN calib \cup {sc.id} ELSE calib
              /\ stat' = [stat EXCEPT !.structural = @ + (IF structural THEN 1 ELSE 0),
                                      !.calibrated = @ + (IF refok THEN 1 ELSE 0),
                                      !.calibmiss = @ + (IF structural /\ ~refok THEN 1 ELSE 0),
@@ -137,7 +138,7 @@ EndEv ==
 
 \* any other event kind (operator events are StreamTrace's business) is consumed silently
 OtherEv == /\ l <= Len(Trace) /\ Trace[l].ev \notin {"sc", "res", "cmp", "dead", "skip", "end"}
-           /\ l' = l + 1 /\ UNCHANGED <<cur, eng, ref, cmpok, viol, stat>>
+           /\ l' = l + 1 /\ UNCHANGED <<cur, eng, ref, cmpok, viol, stat, calib>>
 
 Next == Header \/ ResEv \/ CmpEv \/ DeadEv \/ SkipEv \/ EndEv \/ OtherEv
 Spec == Init /\ [][Next]_vars
@@ -146,5 +147,6 @@ Spec == Init /\ [][Next]_vars
 Done == l = Len(Trace) + 1 =>
           /\ PrintT(<<"VIOL", ToJson(SetToSeq(viol))>>)
           /\ PrintT(<<"STAT", ToJson(stat)>>)
+          /\ PrintT(<<"CALIB", ToJson(SetToSeq(calib))>>)
 Accepted == TLCGet("stats").diameter - 1 = Len(Trace)
 =============================================================================
